@@ -3,11 +3,13 @@ import VelaVerif.Model.Waits
 import VelaVerif.Model.Blockdep
 import VelaVerif.Spec.Conflicts
 import VelaVerif.Spec.BlockJobs
+import VelaVerif.Spec.RangeOverlap
 import VelaVerif.Handlers.Util
 /-!
 Protocol of the C04 check.
 
 * `rsintersects s e s e … | s e …`            → `1` / `0` / `err:assert`      (`RangeSet.intersects`)
+* `rsoverlap s e … | s e …`                   → `1` / `0`   (Spec: the quadratic definition)
 * `rsunion s e … | s e …`                     → the sorted union `s e s e …`  (`RangeSet.__or__`)
 * `accconf r:region:s:e w:… | r:… …`          → `1` / `0` / `err:assert`      (`MemoryAccessSet.add` + `conflicts`)
 * `waitsabs <maxDma> <maxKern> <kinds> <row>…` → `kw,dw;…`  (`get_wait_dependency` over an abstract conflict matrix;
@@ -194,6 +196,9 @@ def handle : List String → Option String
   | "rsintersects" :: toks => do
     let (a, b) ← parseTwoLists toks
     some (optBoolStr (intersects a b))
+  | "rsoverlap" :: toks => do
+    let (a, b) ← parseTwoLists toks
+    some (boolStr (RangeOverlap.overlapsAny a b))
   | "rsunion" :: toks => do
     let (a, b) ← parseTwoLists toks
     some (joinInts ((union a b).flatMap fun r => [r.1, r.2]))
